@@ -221,10 +221,12 @@ class Repo:
         for ch in ast.iter_child_nodes(node):
             if isinstance(ch, (ast.FunctionDef, ast.AsyncFunctionDef)):
                 qn = prefix + ch.name
-                if qn not in self.funcs:   # first definition wins (platform branches: POSIX first is handled per rule)
-                    self.funcs[qn] = Fn(self, qn, m, ch, cls)
-                else:
-                    self.funcs.setdefault(qn + '#2', Fn(self, qn + '#2', m, ch, cls))
+                if qn in self.funcs:   # platform branches define a name several times: qn, qn#2, qn#3 ...
+                    k = 2
+                    while '%s#%d' % (qn, k) in self.funcs:
+                        k += 1
+                    qn = '%s#%d' % (qn, k)
+                self.funcs[qn] = Fn(self, qn, m, ch, cls)
                 self._index(m, ch, qn + '.', None)
             elif isinstance(ch, ast.ClassDef):
                 qn = prefix + ch.name
@@ -261,6 +263,15 @@ class Repo:
 
     def fns_in(self, prefix):
         return [f for q, f in self.funcs.items() if q.startswith(prefix)]
+
+    def versions(self, qn):
+        """all definitions of a multiply defined name"""
+        out = [self.fn(qn)]
+        k = 2
+        while '%s#%d' % (qn, k) in self.funcs:
+            out.append(self.funcs['%s#%d' % (qn, k)])
+            k += 1
+        return out
 
     def resolve_name(self, mod, node):
         """qualified name of the function/class a Name/Attribute expression
